@@ -25,6 +25,16 @@ UBSAN_KIND = {0: "add-overflow", 1: "builtin-unreachable", 2: "cfi", 3: "divrem-
               21: "sub-overflow", 22: "type-mismatch", 23: "alignment-assumption", 24: "vla-bound"}
 
 
+# libm entry points accepted as opaque functions: name -> guaranteed result range (NaN always possible)
+LIBM = {"sin": (-1.0, 1.0), "cos": (-1.0, 1.0), "tan": (-INF, INF), "atan": (-1.5707963267948968, 1.5707963267948968),
+        "atan2": (-3.1415926535897936, 3.1415926535897936), "asin": (-1.5707963267948968, 1.5707963267948968),
+        "acos": (0.0, 3.1415926535897936), "hypot": (0.0, INF), "floor": (-INF, INF), "ceil": (-INF, INF),
+        "round": (-INF, INF), "trunc": (-INF, INF), "fabs": (0.0, INF), "exp": (0.0, INF), "log": (-INF, INF),
+        "pow": (-INF, INF), "fmod": (-INF, INF), "cbrt": (-INF, INF),
+        "sinf": (-1.0, 1.0), "cosf": (-1.0, 1.0), "tanf": (-INF, INF), "atanf": (-1.5707964, 1.5707964),
+        "atan2f": (-3.1415928, 3.1415928), "hypotf": (0.0, INF), "sqrtf": (0.0, INF), "fabsf": (0.0, INF)}
+
+
 class Alarm:
     def __init__(self, kind, chain, line, state, detail=""):
         self.kind = kind
@@ -124,6 +134,15 @@ class Analyzer:
                 if i.op == "call" and i.ops[0] == "llvm.ubsantrap":
                     self.trap_blocks[bn] = i
         self.trap_blocks_pre = set(self.trap_blocks)
+        # integer constants the function compares against (used only to seed witness candidates)
+        cs = set()
+        for b in self.fn.blocks.values():
+            for i in b.insts:
+                if i.op == "icmp" or i.op in ("srem", "sdiv", "urem", "udiv"):
+                    for o in i.ops:
+                        if isinstance(o, IR.Operand) and o.kind == "int" and abs(o.val) > 2 and abs(o.val) < (1 << 62):
+                            cs.add(o.val)
+        self.cmp_consts = sorted(cs)[:200]
         self._find_loops()
         self.gsize = {}
 
@@ -1988,7 +2007,20 @@ class Analyzer:
             return self.f_sqrt(st, i, args)
         if name.startswith("llvm.fabs."):
             return self.f_fabs(st, i, args)
+        if name in LIBM and all(a is not None for a in args):
+            return self.f_libm(st, i, name, args)
         raise Broken("call to non-inlined / unknown function @%s" % name)
+
+    def f_libm(self, st, i, name, args):
+        """external libm function of floating arguments: an opaque, deterministic function (value numbered by its
+        arguments); only the range that every implementation guarantees is assumed"""
+        vs = [self.fval(st, a) for a in args]
+        kind = i.ty.kind
+        lo, hi = LIBM[name]
+        anynan = any(self.frng(st, v)[2] for v in vs)
+        t = T("libm", name, *[v.term for v in vs])
+        st.notes.append(("libm", i.line, name))
+        st.env[i.res] = self.F(st, kind, lo, hi, True, t)
 
     def with_overflow(self, st, i, kind, args):
         a = self.as_int(st, self.val(st, args[0]))
